@@ -32,9 +32,8 @@ Definition enc_state (st : state) : list Z :=
   ++ [zlen (pins st)].
 
 (* One history: per request [1; value...] or [-1; error]; after every request the sizes of the
-   allocation; at the end the whole state.  A request whose pin resolution does not terminate in
-   the code: the specification demands an error, encoded [-3], and the history stops there
-   (the implementation side reports [-2] = "did not return"). *)
+   allocation; at the end the whole state.  [-3] = fuel of the model exhausted (never happens:
+   Proofs/ResP.v resolve_terminates); the implementation side reports [-2] if a request did not return. *)
 Fixpoint run_hist (t : table) (cm : connmap) (st : state) (h : list req) : list Z :=
   match h with
   | [] => 9 :: enc_state st
@@ -47,11 +46,11 @@ Fixpoint run_hist (t : table) (cm : connmap) (st : state) (h : list req) : list 
   end.
 Definition k_hist (t : table) (cm : connmap) (h : list req) : list Z := run_hist t cm init_state h.
 
-(* Pins.map_names alone: [1; pins...] | [-1; 4] NameError | [-3] must be an error (implementation: [-2] hang) *)
+(* Pins.map_names alone: [1; pins...] | [-1; 4] NameError (dangling or cyclic) | [-3] fuel exhausted (never) *)
 Definition k_map (cm : connmap) (ns : list pname) : list Z :=
   match map_names (cm_fuel cm) cm ns with
   | LOk l => 1 :: l
-  | LMissing => [-1; 4]
+  | LMissing | LCycle => [-1; 4]
   | LLoop => [-3]
   end.
 
